@@ -101,11 +101,32 @@ SEV_HANDLER(loadmut)
                 t = t.substr(0, p);
             else if (mode == "dup")
                 t = t.substr(0, p) + t.substr(p > 8 ? p - 8 : 0);
+            else if (mode == "backref") {
+                // structural mutation: the val-th object record (address, first_seen = 1, ...) is replaced by a
+                // back reference (address of the pos-th record, first_seen = 0) and its own bytes up to the next
+                // record are dropped.  Records are located by their shape: an aligned heap address and a 1.
+                std::vector<size_t> recs;
+                for (size_t o = 1; o + 9 <= s.size(); o++) {
+                    const unsigned char *q = (const unsigned char *)s.data() + o;
+                    if (q[8] == 1 && q[7] == 0 && q[6] == 0 && (q[5] != 0 || q[4] != 0) && q[0] % 8 == 0
+                        && (recs.empty() || o >= recs.back() + 9))
+                        recs.push_back(o);
+                }
+                size_t i = (size_t)pos, j = (size_t)val;
+                if (i < j && j < recs.size()) {
+                    size_t next = j + 1 < recs.size() ? recs[j + 1] : s.size();
+                    t = s.substr(0, recs[j]) + s.substr(recs[i], 8) + std::string(1, '\0') + s.substr(next);
+                } else
+                    t = "";
+            }
         }
         J o = J::obj();
         long long usable = 0;
+        J dl = term("Null");
         o.set("exc", guarded([&] {
                   RCP<const Basic> l = Basic::loads(t);
+                  if (mode == "backref")
+                      dl = dump(l); // (by dynamic type: shows what sits in each typed slot)
                   std::string str = l->__str__();
                   hash_t h = l->hash();
                   (void)h;
@@ -115,6 +136,7 @@ SEV_HANDLER(loadmut)
                   usable = 1;
               }));
         o.set("usable", usable);
+        o.set("d", dl);
         out.push(o);
     }
     r.set("out", out);
